@@ -58,11 +58,13 @@ package protocols
 //@   iteration 0: one_entry_per_version: emitted("R\"(%s)\",\n") + emitted("%s::schema_,\n") == 1
 //@   iteration 0: changed_version_uses_its_previous_schema: p.Versions[versionLabel] != nil ==> emitted("R\"(%s)\",\n") == 1 && emittedArg("R\"(%s)\",\n", 0, 0, string) == p.Versions[versionLabel].PreviousSchema
 //@   iteration 0: unchanged_version_uses_current_schema: p.Versions[versionLabel] == nil ==> emitted("%s::schema_,\n") == 1
+//@   iteration 0: entries_follow_the_declared_version_order: versionLabel == ns.Versions[rangeindex + 1]
 
 // SchemaFromVersion: version label k maps to previous_schemas_[k].
 //@ func writeDefinitions$1@emits:"case Version::%s: return previous_schemas_[%d]; break;\n"
 //@   property C15,C05
 //@   iteration 0: label_and_index_aligned: emitted("case Version::%s: return previous_schemas_[%d]; break;\n") == 1 && emittedArg("case Version::%s: return previous_schemas_[%d]; break;\n", 0, 0, string) == versionLabel && emittedArg("case Version::%s: return previous_schemas_[%d]; break;\n", 0, 1, int) == i
+//@   iteration 0: cases_follow_the_declared_version_order: versionLabel == ns.Versions[i]
 //@   ensures current_maps_to_current_schema: emitted("case Version::Current: return %s::schema_; break;\n") == 1
 //@   ensures unknown_version_throws: emitted("default: throw std::runtime_error(\"The version does not correspond to any schema supported by protocol %s.\");\n") == 1
 
@@ -71,5 +73,9 @@ package protocols
 //@ func writeDefinitions$1@emits:"else if (schema == previous_schemas_[%d]) {\n"
 //@   property C15,C05
 //@   iteration 0: index_and_label_aligned: emitted("else if (schema == previous_schemas_[%d]) {\n") == 1 && emittedArg("else if (schema == previous_schemas_[%d]) {\n", 0, 0, int) == i && emitted("return Version::%s;\n") == 1 && emittedArg("return Version::%s;\n", 0, 0, string) == versionLabel
+//@   iteration 0: tests_follow_the_declared_version_order: versionLabel == ns.Versions[i]
 //@   ensures current_schema_first: emitted("if (schema == %s::schema_) {\n") == 1 && emitted("return Version::Current;\n") == 1
 //@   ensures foreign_schema_refused: emitted("throw std::runtime_error(\"The schema does not match any version supported by protocol %s.\");\n") == 1
+
+// Output and diagnostics may not depend on the iteration order of a Go map (C12): decided per `range` over a map.
+//@ map-order C12 package
